@@ -95,3 +95,21 @@ def shipped_pdas(repo):
 def rename(RP, mapping):
     f = lambda q: mapping[q]
     return pd.make([f(q) for q in RP[0]], RP[1], RP[2], [(f(p), a, u, f(q), v) for (p, a, u, q, v) in RP[3]], f(RP[4]), [f(q) for q in RP[5]])
+
+
+def colliding_names(rng, RP):
+    """the same PDA with state names that are prefixes of each other and stack symbols drawn from the characters
+    that extend them (q / q1 / q11 with the stack symbol 1, A / AB with B): a configuration key built by plain
+    concatenation of state and stack cannot tell (q,[1]) from (q1,[])"""
+    pools = [(['q', 'q1', 'q11', 'q10', 'q0'], ['1', '0']), (['A', 'AB', 'ABB', 'AA', 'B'], ['B', 'A']), (['s', 'sX', 'sXY', 'sY', 'sXX'], ['X', 'Y'])]
+    (names, syms) = rng.choice(pools)
+    if len(RP[0]) > len(names) or len(RP[2]) > len(syms):
+        return None
+    names = names[:]
+    rng.shuffle(names)
+    qm = dict(zip(RP[0], names))
+    gm = dict(zip(RP[2], syms))
+    g = lambda x: None if x is None else gm[x]
+    if set(gm.values()) & set(RP[1]):
+        return None
+    return pd.make([qm[q] for q in RP[0]], RP[1], [gm[x] for x in RP[2]], [(qm[p], a, g(u), qm[q], g(v)) for (p, a, u, q, v) in RP[3]], qm[RP[4]], [qm[q] for q in RP[5]])
